@@ -256,6 +256,9 @@ def handle (s : Sexp) : D String :=
       match convTerm headTablePy (← decHTerm x) with
       | .ok p => pure (showPTerm p)
       | .error e => pure ("ERR " ++ e.tag)
+  | .list [.atom "getvars", x] => do
+      -- (getvars <theory term>) : get_variables, in order
+      pure ("(" ++ " ".intercalate ((getVariables (← decHTerm x)).map Sexp.quote) ++ ")")
   | .list [.atom "symterm", x] => do
       -- (symterm <symbol>) : the theory term of the symbol, and what create_symbol makes of it
       let sy ← decSym x
